@@ -15,11 +15,13 @@ pub trait AlignHash {}
 //@  ret r
 //@end
 
+//@requires bool::SerializeInner
 impl RoundTrip for bool {
     proof fn lemma_rt(&self, pos: nat, rest: Seq<u8>) {
         assert((self.enc(pos) + rest).take(1) =~= self.enc(pos));
     }
 }
+//@endrequires
 
 //@item epserde/src/impls/prim.rs props=C01,C13 name=unit::SerializeInner <<impl SerializeInner for () {>>
 //@  replace <<ser::Result>> <<SResult>>
@@ -45,6 +47,7 @@ impl RoundTrip for bool {
 //@  ret r
 //@end
 
+//@requires Option::SerializeInner
 impl<T: RoundTrip + TypeHash + AlignHash> RoundTrip for Option<T> {
     proof fn lemma_rt(&self, pos: nat, rest: Seq<u8>) {
         let s = self.enc(pos) + rest;
@@ -58,6 +61,7 @@ impl<T: RoundTrip + TypeHash + AlignHash> RoundTrip for Option<T> {
         }
     }
 }
+//@endrequires
 
 //@item epserde/src/impls/prim.rs props=C01,C13 name=PhantomData::SerializeInner <<impl<T: ?Sized> SerializeInner for PhantomData<T> {>>
 //@  replace <<ser::Result>> <<SResult>>
@@ -89,6 +93,7 @@ impl<T: RoundTrip + TypeHash + AlignHash> RoundTrip for Option<T> {
 //@  ret r
 //@end
 
+//@requires Bound::SerializeInner
 impl<T: RoundTrip + TypeHash + AlignHash> RoundTrip for core::ops::Bound<T> {
     proof fn lemma_rt(&self, pos: nat, rest: Seq<u8>) {
         let s = self.enc(pos) + rest;
@@ -105,6 +110,7 @@ impl<T: RoundTrip + TypeHash + AlignHash> RoundTrip for core::ops::Bound<T> {
         }
     }
 }
+//@endrequires
 
 //@item epserde/src/impls/stdlib.rs props=C01,C13,C15 name=ControlFlow::SerializeInner back=impl <<SerializeInner for core::ops::ControlFlow<B, C> {>>
 //@  replace <<ser::Result>> <<SResult>>
@@ -121,6 +127,7 @@ impl<T: RoundTrip + TypeHash + AlignHash> RoundTrip for core::ops::Bound<T> {
 //@  ret r
 //@end
 
+//@requires ControlFlow::SerializeInner
 impl<B: RoundTrip + TypeHash + AlignHash, C: RoundTrip + TypeHash + AlignHash> RoundTrip for core::ops::ControlFlow<B, C> {
     proof fn lemma_rt(&self, pos: nat, rest: Seq<u8>) {
         let s = self.enc(pos) + rest;
@@ -136,6 +143,7 @@ impl<B: RoundTrip + TypeHash + AlignHash, C: RoundTrip + TypeHash + AlignHash> R
         }
     }
 }
+//@endrequires
 
 //@item epserde/src/impls/stdlib.rs props=C01,C13 name=Range::SerializeInner back=impl <<SerializeInner for core::ops::Range<Idx> {>>
 //@  replace <<ser::Result>> <<SResult>>
@@ -149,6 +157,7 @@ impl<B: RoundTrip + TypeHash + AlignHash, C: RoundTrip + TypeHash + AlignHash> R
 //@  ret r
 //@end
 
+//@requires Range::SerializeInner
 impl<Idx: ZeroCopy + RoundTrip + TypeHash + AlignHash> RoundTrip for core::ops::Range<Idx> {
     proof fn lemma_rt(&self, pos: nat, rest: Seq<u8>) {
         let e1 = self.start.enc(pos);
@@ -160,6 +169,7 @@ impl<Idx: ZeroCopy + RoundTrip + TypeHash + AlignHash> RoundTrip for core::ops::
         self.end.lemma_rt(pos + e1.len(), rest);
     }
 }
+//@endrequires
 
 //@item epserde/src/impls/stdlib.rs props=C01,C13 name=RangeFrom::SerializeInner back=impl <<SerializeInner for core::ops::RangeFrom<Idx> {>>
 //@  replace <<ser::Result>> <<SResult>>
@@ -171,9 +181,11 @@ impl<Idx: ZeroCopy + RoundTrip + TypeHash + AlignHash> RoundTrip for core::ops::
 //@  ret r
 //@end
 
+//@requires RangeFrom::SerializeInner
 impl<Idx: ZeroCopy + RoundTrip + TypeHash + AlignHash> RoundTrip for core::ops::RangeFrom<Idx> {
     proof fn lemma_rt(&self, pos: nat, rest: Seq<u8>) { self.start.lemma_rt(pos, rest); }
 }
+//@endrequires
 
 //@item epserde/src/impls/stdlib.rs props=C01,C13 name=RangeTo::SerializeInner back=impl <<SerializeInner for core::ops::RangeTo<Idx> {>>
 //@  replace <<ser::Result>> <<SResult>>
@@ -185,9 +197,11 @@ impl<Idx: ZeroCopy + RoundTrip + TypeHash + AlignHash> RoundTrip for core::ops::
 //@  ret r
 //@end
 
+//@requires RangeTo::SerializeInner
 impl<Idx: ZeroCopy + RoundTrip + TypeHash + AlignHash> RoundTrip for core::ops::RangeTo<Idx> {
     proof fn lemma_rt(&self, pos: nat, rest: Seq<u8>) { self.end.lemma_rt(pos, rest); }
 }
+//@endrequires
 
 //@item epserde/src/impls/stdlib.rs props=C01,C13 name=RangeToInclusive::SerializeInner back=impl <<SerializeInner for core::ops::RangeToInclusive<Idx> {>>
 //@  replace <<ser::Result>> <<SResult>>
@@ -199,9 +213,11 @@ impl<Idx: ZeroCopy + RoundTrip + TypeHash + AlignHash> RoundTrip for core::ops::
 //@  ret r
 //@end
 
+//@requires RangeToInclusive::SerializeInner
 impl<Idx: ZeroCopy + RoundTrip + TypeHash + AlignHash> RoundTrip for core::ops::RangeToInclusive<Idx> {
     proof fn lemma_rt(&self, pos: nat, rest: Seq<u8>) { self.end.lemma_rt(pos, rest); }
 }
+//@endrequires
 
 //@item epserde/src/impls/stdlib.rs props=C01,C13 name=RangeFull::SerializeInner <<impl SerializeInner for core::ops::RangeFull {>>
 //@  replace <<ser::Result>> <<SResult>>
